@@ -9,6 +9,7 @@ verus! {
 //@include prelude/xxh3.rs
 //@include spec/byte_lemmas.rs
 //@include spec/journal_format.rs
+//@include spec/ops.rs
 //@include spec/batch_format.rs
 //@include prelude/paths.rs
 //@broadcast axioms::array_slice_eq_spec, lz4_axioms::lz4_bound, byte_lemmas::group_le_len
@@ -22,6 +23,7 @@ pub type BatchItem = Item;                            // writer.rs: `use crate::
 //@extract-type src/journal/writer.rs :: Writer
 //@extract-type src/journal/writer.rs :: PersistMode derive=Clone+Copy+PartialEq+Eq
 //@include spec/writer_spec.rs
+//@include spec/item_ops.rs
 
 // contracts proved in U-CODEC, assumed here
 //@extract src/journal/entry.rs :: serialize_marker_item spec_only
